@@ -473,7 +473,7 @@ func (l *Loaded) paramArg(v ssa.Value) ssa.Value {
 		if fn == nil || l.AddressTaken(fn) || l.mayBeInvoked(fn) {
 			return v
 		}
-		cs := l.StaticCallers(fn)
+		cs := l.RealCallers(fn)
 		if len(cs) != 1 {
 			return v
 		}
@@ -544,7 +544,7 @@ func (l *Loaded) poolDomain() map[*ssa.Function]bool {
 			if E[fn] || fn.Parent() != nil || l.AddressTaken(fn) || l.mayBeInvoked(fn) {
 				continue
 			}
-			cs := l.StaticCallers(fn)
+			cs := l.RealCallers(fn)
 			if len(cs) == 0 {
 				continue
 			}
